@@ -161,7 +161,9 @@ CHECKS = {
             'for finiteness, non-negativity, shape and extrapolation tag; continuity at every zero-length epoch; X_sel(0)==X, '
             'X_sel_single_gamma(g)==X_sel(g,g), X_asym(m,m)==X_sym(m) wherever the names exist; label-swap equivariance for every model whose '
             'parameter names are closed under the swap, with the error required to vanish with the time step. The explicit nesting graph '
-            '(zero migration, zero-length epochs, equal rates, merged epochs, constant-vs-function drivers) is evaluated edge by edge.',
+            '(zero migration, zero-length epochs, equal rates, merged epochs, constant-vs-function drivers) is evaluated edge by edge, and so are 337 further '
+            'edges derived from the models\' call programs (checks/C15_auto_edges.json, produced by tools/discover_c15_edges.py: recording stubs, symbolic '
+            'parameters, program unification at every zero-length epoch / zero migration point) on 2 (quick) / 6 (thorough) lattice points.',
             'Identities are checked on coarse grids (they hold at any grid); "~" edges are decided on a two-level time-step ladder; small negative '
             'entries (>-2e-3 of the maximum at a single grid) are treated as discretisation error; models with directional admixture or two '
             'selection coefficients are swap-tested only in their symmetric sub-family.',
@@ -188,9 +190,10 @@ CHECKS = {
             '(queue, result multiset, per-thread pending operation and item in hand; symmetric workers sorted), and re-enumerated without pruning '
             'under preemption bounds 0,1,2; W in {8,16} preemption-bounded only. In every terminal state the cache must be bitwise the '
             'single-process cache, every job computed exactly once, no deadlock or livelock. Every non-empty subset of failing jobs is injected '
-            'under every schedule (the constructor must raise). Every sequence of split-job caches up to length split+1 is merged (complete '
+            'under every schedule (the constructor must raise), and so is the hard death of the worker that dequeues job k (for every k; the worker '
+            'disappears holding the job, without raising: the constructor must not return a cache). Every sequence of split-job caches up to length split+1 is merged (complete '
             'sets equal the single-job cache, incomplete ones raise naming the first hole, altered copies raise). integrate / '
-            'integrate_point_pos / mixtures are compared with an independent quadrature on closed-form caches over pdf x parameter x theta x '
+            'integrate_point_pos / mixtures (incl. the six-component Vourlaki mixture) are compared with an independent quadrature on closed-form caches over pdf x parameter x theta x '
             'exterior lattices, and compiled pdfs with reference formulas.',
             'Scheduling points only at Manager-proxy operations (the workers share nothing else; a free-running pass with real processes is '
             'included); 2-D tail masses use adaptive quadrature at epsrel 1e-3 in the implementation and are compared at 2e-3; total weight ~ 1 '
